@@ -716,7 +716,17 @@ func (x *expander) targetD(call *ast.CallExpr, depth int, allowDefer bool) (call
 
 func calleeOf(info *types.Info, call *ast.CallExpr) (*types.Func, bool) {
 	var id *ast.Ident
-	switch f := ast.Unparen(call.Fun).(type) {
+	fun := ast.Unparen(call.Fun)
+	// an explicitly instantiated generic function: helper[T](…)
+	switch ix := fun.(type) {
+	case *ast.IndexExpr:
+		if tv, ok := info.Types[ix.Index]; ok && tv.IsType() {
+			fun = ast.Unparen(ix.X)
+		}
+	case *ast.IndexListExpr:
+		fun = ast.Unparen(ix.X)
+	}
+	switch f := fun.(type) {
 	case *ast.Ident:
 		id = f
 	case *ast.SelectorExpr:
@@ -1483,6 +1493,12 @@ func (x *expander) inline(call *ast.CallExpr, ctx *callCtx, depth int) ([]ast.St
 					return append(st, gotoStmt(caseLabel(tv.Value, pos), pos))
 				}
 			}
+			// `v, err := helper(…); return conv(v), err`: every return of the helper becomes a return of its own
+			// (the returned error is then nil, or an error, at each of them instead of "either" at one shared exit)
+			if fwd, ok := ctx.next.(*ast.ReturnStmt); ok && !single && target == nil && swTarget == nil && cmpIdx < 0 && x.forwardable(fwd, ctx.assign) {
+				c2 := &cloner{p: x.p, info: x.info, off: x.p.shiftFile(fwd.Pos()), objs: map[types.Object]types.Object{}, local: func(types.Object) bool { return false }}
+				return append(st, c2.node(fwd).(ast.Stmt))
+			}
 			if cmpIdx >= 0 && len(results) == nres {
 				if tv, ok := x.info.Types[results[cmpIdx]]; ok && tv.Value != nil && tv.Value.Kind() == cmpVal.Kind() {
 					ensureBranchLabels()
@@ -1667,7 +1683,19 @@ func (x *expander) substitutable(e ast.Expr) bool {
 			return !o.IsField()
 		}
 		return false
+	case *ast.BinaryExpr:
+		// a boolean combination / comparison of stable operands (`!d.Spent`, `a == b`, `p && q`) is as stable as they are
+		switch t.Op {
+		case token.LAND, token.LOR, token.EQL, token.NEQ:
+			if b, ok := x.info.TypeOf(t).Underlying().(*types.Basic); ok && b.Info()&types.IsBoolean != 0 {
+				return x.substitutable(t.X) && x.substitutable(t.Y)
+			}
+		}
+		return false
 	case *ast.UnaryExpr:
+		if t.Op == token.NOT {
+			return x.substitutable(t.X)
+		}
 		// the address of a variable (or of a field reached without indirection) is stable
 		if t.Op != token.AND {
 			return false
@@ -3065,9 +3093,25 @@ func (x *expander) accessors(s ast.Stmt, depth int) {
 				if !ok {
 					return
 				}
+				// a field of a package-level record that is never written after its initialiser is the value it
+				// was given there (a function name or a constant): `replenishPools.exactDeposits` reads as `true`
+				if sel, isSel := ast.Unparen(e).(*ast.SelectorExpr); isSel {
+					if repl := x.frozenField(sel); repl != nil && slot.CanSet() {
+						slot.Set(reflect.ValueOf(repl))
+						changed = true
+					}
+					return
+				}
 				call, ok := ast.Unparen(e).(*ast.CallExpr)
 				if !ok {
 					return
+				}
+				if csel, isSel := ast.Unparen(call.Fun).(*ast.SelectorExpr); isSel {
+					if repl := x.frozenField(csel); repl != nil {
+						call.Fun = repl
+						changed = true
+						return
+					}
 				}
 				if repl := x.accessorValue(call, depth); repl != nil && slot.CanSet() {
 					slot.Set(reflect.ValueOf(repl))
@@ -3192,4 +3236,87 @@ func (x *expander) accessorValue(call *ast.CallExpr, depth int) ast.Expr {
 	x.inlinedCalls[x.p.OrigNode(call)] = true
 	x.inlined = append(x.inlined, c.obj)
 	return par
+}
+
+// forwardable: the return statement that follows the assignment of a call's results mentions, besides the assigned
+// variables, only expressions without effects (so a copy of it may stand at each return of the expanded callee).
+func (x *expander) forwardable(ret *ast.ReturnStmt, as *ast.AssignStmt) bool {
+	if len(ret.Results) == 0 {
+		return false
+	}
+	assigned := map[types.Object]bool{}
+	for _, l := range as.Lhs {
+		if o := x.objOf(l); o != nil {
+			assigned[o] = true
+		}
+	}
+	uses := false
+	for _, r := range ret.Results {
+		if !isPure(x.info, r) {
+			return false
+		}
+		ast.Inspect(r, func(n ast.Node) bool {
+			if id, ok := n.(*ast.Ident); ok && assigned[x.objOf(id)] {
+				uses = true
+			}
+			return true
+		})
+	}
+	return uses
+}
+
+// frozenField: sel is V.f with V a package-level variable of the package under analysis whose declaration
+// initialises it with a keyed struct literal, and which is never assigned, address-taken or field-assigned anywhere
+// in the package. It returns a copy of the initialiser's value for f when that value is a constant, true/false, nil,
+// or the name of a function; nil otherwise (also when the literal leaves f out).
+func (x *expander) frozenField(sel *ast.SelectorExpr) ast.Expr {
+	id, ok := ast.Unparen(sel.X).(*ast.Ident)
+	if !ok {
+		return nil
+	}
+	v, ok := x.info.Uses[id].(*types.Var)
+	if !ok || v.IsField() || v.Pkg() == nil || v.Parent() != v.Pkg().Scope() || v.Pkg() != x.top.Pkg.Types {
+		return nil
+	}
+	if s := x.info.Selections[sel]; s == nil || s.Kind() != types.FieldVal {
+		return nil
+	}
+	init, frozen := x.p.frozenVar(x.top.Pkg, v)
+	if !frozen || init == nil {
+		return nil
+	}
+	for _, el := range init.Elts {
+		kv, ok := el.(*ast.KeyValueExpr)
+		if !ok {
+			return nil
+		}
+		k, ok := kv.Key.(*ast.Ident)
+		if !ok || k.Name != sel.Sel.Name {
+			continue
+		}
+		val := ast.Unparen(kv.Value)
+		okVal := false
+		if tv, has := x.info.Types[val]; has && tv.Value != nil {
+			okVal = true
+		}
+		switch t := val.(type) {
+		case *ast.Ident:
+			switch x.info.Uses[t].(type) {
+			case *types.Func, *types.Const, *types.Nil:
+				okVal = true
+			}
+		case *ast.SelectorExpr:
+			if _, isFn := x.info.Uses[t.Sel].(*types.Func); isFn && x.info.Selections[t] == nil {
+				okVal = true
+			}
+		}
+		if !okVal {
+			return nil
+		}
+		cl := &cloner{p: x.p, info: x.info, off: x.p.shiftFile(val.Pos()), objs: map[types.Object]types.Object{}, local: func(types.Object) bool { return false }}
+		out := cl.node(val).(ast.Expr)
+		collapsePos(out, sel.Pos())
+		return out
+	}
+	return nil
 }
